@@ -12,3 +12,4 @@ import PanderaModel.Props.C11
 #print axioms Pandera.C11.drop_returns_unnamed_rows
 #print axioms Pandera.C11.non_row_errors_still_raised
 #print axioms Pandera.C11.survivors_are_the_valid_rows
+#print axioms Pandera.C11.drop_invalid_rows_exact
